@@ -137,6 +137,12 @@ type Scenario struct {
 	// multi-value option Typed(nil, v1, v2, ...) (a nil value must be ignored)
 	// instead of one option each.
 	JoinTyped bool `json:"joinTyped,omitempty"`
+	// PriorInputs (optional): before the call under test, the same target
+	// Func is called once with THESE inputs (and the same converters). What an
+	// earlier call was given must have no influence on a later one.
+	PriorInputs []Input `json:"priorInputs,omitempty"`
+	// TargetDefault: the target is created with a default option (FuncName).
+	TargetDefault bool `json:"targetDefault,omitempty"`
 }
 
 func (s *Scenario) String() string {
